@@ -368,7 +368,7 @@ def run_check(prop, tier, seed=0, only=None, nproc=None, serial=False, verbose=T
     per_cfg = max(20.0, total_budget / max(1, len(configs)))
     opts_base = {'timeout_ms': 5000 if tier == 'quick' else 30000,
                  'sample_every': 7 if tier == 'quick' else 3, 'concolic': True,
-                 'path_wall_s': 60 if tier == 'quick' else 300}
+                 'path_wall_s': 25 if tier == 'quick' else 300}
     opts_base.update(getattr(mod, 'OPTS', {}).get(tier, {}))
     per_config = []
     violations = []
@@ -380,6 +380,8 @@ def run_check(prop, tier, seed=0, only=None, nproc=None, serial=False, verbose=T
         log("[%s/%s] config %s" % (prop, tier, label))
         remaining = total_budget - (time.time() - t_start)
         budget = max(15.0, min(per_cfg * 2, remaining)) if remaining > 15 else 15.0
+        if '_budget_s' in params:
+            budget = float(params['_budget_s'])
         if serial:
             agg = explore_serial(modname, params, opts_base, budget_s=budget)
         else:
